@@ -499,15 +499,20 @@ def value_parse_datetime(text):
     :rtype: datetime.datetime or None
     """
 
-    m_date = _R_DATE.match(text)
-    if m_date is not None:
-        year = int(m_date.group('year'))
-        month = int(m_date.group('month'))
-        day = int(m_date.group('day'))
-        return datetime.datetime(year, month, day)
-    elif _R_DATETIME.match(text):
-        result = datetime.datetime.fromisoformat(_R_DATETIME_ZULU.sub('+00:00', text)).astimezone().replace(tzinfo=None)
-        return result.replace(microsecond=(result.microsecond // 1000) * 1000)
+    try:
+        m_date = _R_DATE.match(text)
+        if m_date is not None:
+            year = int(m_date.group('year'))
+            month = int(m_date.group('month'))
+            day = int(m_date.group('day'))
+            return datetime.datetime(year, month, day)
+        elif _R_DATETIME.match(text):
+            result = datetime.datetime.fromisoformat(_R_DATETIME_ZULU.sub('+00:00', text)).astimezone().replace(tzinfo=None)
+            return result.replace(microsecond=(result.microsecond // 1000) * 1000)
+
+    # Text that looks like a date but is not a valid calendar date/time is not a datetime
+    except (ValueError, OverflowError):
+        pass
 
     return None
 
